@@ -52,6 +52,10 @@ def run(ctx):
         cases.append({"kind": "precreate3", "seed": ctx.seed * 10 + i, "nlookupd": 1, "fails": []})
     for i in range(3 if ctx.quick else 12):
         cases.append({"kind": "reconfig", "seed": ctx.seed * 10 + i, "nlookupd": 2, "fails": []})
+    # the HTTP side of one nsqlookupd faulty while a topic is first created (seed mod 7 picks the fault: stalls in the body,
+    # answers nothing, stalls in the headers, drips for ever, garbage, reset, 500)
+    for i in range(7):
+        cases.append({"kind": "httpfault", "seed": i, "nlookupd": 2, "fails": []})
     cases.append({"kind": "badident", "seed": 1, "nlookupd": 1, "fails": []})
     cases.append({"kind": "badident", "seed": 2, "nlookupd": 2, "fails": []})
     cases.append({"kind": "churnping", "seed": 1, "nlookupd": 1, "fails": []})
